@@ -218,9 +218,13 @@ def run(prop, tier, seed, update_lock=False, verbose=False):
     known = load_known(prop)
     open_known = [k for k in known if k.get("status", "open") == "open"]
     uni.kf_classes = {}
+    uni.kf_classes_here = {}
     for k in open_known:
         if k.get("obligation") and k.get("class"):
             uni.kf_classes.setdefault(k["obligation"], []).append(k["class"])
+        if k.get("obligation") and k.get("class_here"):
+            uni.kf_classes_here.setdefault(k["obligation"], []).append(
+                k["class_here"])
     timeout_ms = 30000 if tier == "quick" else 120000
     result = {"violations": [], "undecided": [], "errors": [],
               "known_printed": []}
